@@ -308,6 +308,22 @@ def run(ck, repo: Repo, tier: str):
             if len(calls) < n_expected and (_foreign_helper_sites(repo, res) or any(cq_.startswith(q) or True for _c, cq_ in getattr(repo, "expand_failed", []) if _c == q)):
                 raise AnalysisError(f"{q}: {len(calls)} of {n_expected} documented target updates are visible; others go through code that cannot be attributed (unrecognised form)")
             if len(calls) < n_expected:
+                looped = []
+                for c_ in ast.walk(fn):
+                    if isinstance(c_, ast.Call) and isinstance(c_.func, (ast.Name, ast.Attribute)) and (repo.resolve_expr(mi, c_.func) or "").endswith(("nnx.update", "target_net_update")):
+                        p_ = getattr(c_, "_parent", None)
+                        while p_ is not None and p_ is not fn:
+                            tv_ = set()
+                            if isinstance(p_, ast.For):
+                                tv_ = {x_.id for x_ in ast.walk(p_.target) if isinstance(x_, ast.Name)}
+                            elif isinstance(p_, (ast.ListComp, ast.GeneratorExp, ast.DictComp, ast.SetComp)):
+                                tv_ = {x_.id for g_ in p_.generators for x_ in ast.walk(g_.target) if isinstance(x_, ast.Name)}
+                            if tv_ & {x_.id for a_ in c_.args for x_ in ast.walk(a_) if isinstance(x_, ast.Name)}:
+                                looped.append(c_)      # the updated objects are the loop's variables
+                                break
+                            p_ = getattr(p_, "_parent", None)
+                if looped:
+                    raise AnalysisError(f"{q}: `{short(looped[0], 50)}` runs inside a loop: one call site serves several (online, target) pairs, which cannot be matched with the {n_expected} documented updates one by one (unrecognised form)")
                 raw = [c_ for c_ in ast.walk(fn) if isinstance(c_, ast.Call) and isinstance(c_.func, (ast.Name, ast.Attribute)) and repo.resolve_expr(mi, c_.func) == "flax.nnx.update"]
                 if len(raw) > len(calls):
                     raise AnalysisError(f"{q}: {len(calls)} of {n_expected} documented target updates are visible as helper calls, but {len(raw)} raw nnx.update calls are present (written out or expanded updates: not attributed)")
